@@ -175,4 +175,98 @@ def r7e_both(text, log):
     return r7e_entry_or_insert_stmt(r7e_entry_or_insert(text, log), log)
 
 
-RULES = {"R4h": r4h_iter_take, "R4j": r4j_vec_value_for, "R7e": r7e_both}
+
+def r20_labeled_block(text, log):
+    """R20  labeled block with a value (Verus: "block with label" unsupported), rewritten to a single-iteration loop:
+
+        let P = 'L: { B ; TAIL };
+     ->
+        let vx_lbK; loop /*vx-loop*/ { B' ; vx_lbK = TAIL; break; } let P = vx_lbK;
+        where B' = B with every  `break 'L E`  replaced by  `{ vx_lbK = E; break; }`
+
+    A block runs once and yields either the operand of a `break 'L` or its tail; the loop body runs once and leaves through a
+    `break` after storing the same value in a fresh variable (fresh, because P may be shadowed inside B).  `return` and `?`
+    inside B keep their meaning (they leave the function in both forms).  Side conditions, otherwise RewriteError (undecided):
+    B contains no loop (`loop`/`while`/`for`), no closure or async block containing `break`, no unlabeled `break`/`continue`,
+    no other label; TAIL is the text after the last top-level `;` of the block and is a non-empty expression."""
+    from ..rewrite import RewriteError
+    while True:
+        st = sig(lex(text))
+        done = True
+        for i, t in enumerate(st):
+            if t.kind != "ident" or t.text != "let":
+                continue
+            # let IDENT = 'L : {
+            if i + 5 >= len(st) or st[i + 1].kind != "ident" or st[i + 2].text != "=":
+                continue
+            lab = st[i + 3]
+            if not lab.text.startswith("'") or st[i + 4].text != ":" or st[i + 5].text != "{":
+                continue
+            o = i + 5
+            c = match_close(st, o)
+            if c + 1 >= len(st) or st[c + 1].text != ";":
+                continue
+            inner = st[o + 1:c]
+            for x in inner:
+                if x.kind == "ident" and x.text in ("loop", "while", "for", "continue", "async"):
+                    raise RewriteError("R20: `%s` inside labeled block" % x.text)
+                if x.text.startswith("'") and x.text != lab.text and len(x.text) > 1 and x.kind != "char":
+                    pass
+            var = _fresh(text, "vx_lb")
+            edits = []
+            # breaks
+            k = o + 1
+            last_semi = None
+            depth = 0
+            while k < c:
+                x = st[k]
+                if x.kind == "punct" and x.text in "([{":
+                    depth += 1
+                elif x.kind == "punct" and x.text in ")]}":
+                    depth -= 1
+                elif x.text == ";" and depth == 0:
+                    last_semi = k
+                if x.kind == "ident" and x.text == "break":
+                    if st[k + 1].text != lab.text:
+                        raise RewriteError("R20: break without the block's label")
+                    # operand: up to the `;` at this nesting level
+                    j = k + 2
+                    d2 = 0
+                    while j < c:
+                        y = st[j]
+                        if y.kind == "punct" and y.text in "([{":
+                            d2 += 1
+                        elif y.kind == "punct" and y.text in ")]}":
+                            if d2 == 0:
+                                break
+                            d2 -= 1
+                        elif y.text == ";" and d2 == 0:
+                            break
+                        j += 1
+                    if j == k + 2:
+                        raise RewriteError("R20: break without value")
+                    e_txt = text[st[k + 2].start:st[j - 1].end]
+                    has_semi = st[j].text == ";"
+                    end = st[j].end if has_semi else st[j - 1].end
+                    edits.append((x.start, end, "{ %s = %s; break; }" % (var, e_txt)))
+                    k = j
+                    continue
+                k += 1
+            if last_semi is None or last_semi + 1 >= c:
+                raise RewriteError("R20: labeled block without tail expression")
+            tail_a, tail_b = st[last_semi + 1].start, st[c - 1].end
+            tail = text[tail_a:tail_b]
+            edits.append((tail_a, tail_b, "%s = %s; break;" % (var, tail)))
+            # header and footer
+            edits.append((t.start, st[o].start, "let %s; loop /*vx-loop*/ " % var))
+            edits.append((st[c + 1].start, st[c + 1].end, " let %s = %s;" % (st[i + 1].text, var)))
+            from ..rewrite import apply_edits
+            text = apply_edits(text, edits)
+            log["R20 labeled block -> single-iteration loop"] = log.get("R20 labeled block -> single-iteration loop", 0) + 1
+            done = False
+            break
+        if done:
+            return text
+
+
+RULES = {"R4h": r4h_iter_take, "R4j": r4j_vec_value_for, "R7e": r7e_both, "R20": r20_labeled_block}
